@@ -4,6 +4,7 @@
 (*   [kind |-> "code", ast, hoist]   top-level statements fed as one input, or          *)
 (*   [kind |-> "rejected"]           an input the parser or compiler must refuse,       *)
 (*   [kind |-> "interrupted", mark]  an input stopped through its context;              *)
+(*   [kind |-> "exhausted", mark]    an input that exhausts the VM's operand stack;     *)
 (* obs[i] is what the real compiler+VM (one compiler, one VM, REPL protocol) did with   *)
 (* it.  Specified meaning (Lang!ExecSeq threaded through the pieces): globals persist,  *)
 (* each piece yields the value of its last statement and its own output, a rejected     *)
@@ -22,6 +23,10 @@ RunFrom(pieces, i, env, s, acc) ==
     ELSE IF p.kind = "interrupted"
     THEN RunFrom(pieces, i + 1, env, s, Append(acc, [k |-> "raise", v |-> "context deadline exceeded", msg |-> <<>>,
                                                       out |-> Digits(p.mark) \o <<10>>]))
+    \* an input that exhausts the operand stack (print(mark), then a recursion local to the input or an oversized list
+    \* literal): its output so far stays, the run ends with an error, nothing else changes
+    ELSE IF p.kind = "exhausted"
+    THEN RunFrom(pieces, i + 1, env, s, Append(acc, [k |-> "raise", v |-> "anyerror", msg |-> <<>>, out |-> Digits(p.mark) \o <<10>>]))
     ELSE LET h == Hoist(p.hoist, env, [s EXCEPT !.out = <<>>])
              r == ExecSeq(p.ast, h.env, h.s, VNil) IN
          IF r.k = "ok" THEN RunFrom(pieces, i + 1, r.env, r.s, Append(acc, Outcome(r)))
